@@ -206,7 +206,7 @@ def main():
         fn, foreign = eh.classify_stack(r.err) if k.startswith(("asan", "ubsan")) else ("", False)
         if k == "assert":
             fn = _assert_fn(r.err)
-        ev = {"e": "Run", "tool": j["tool"], "corruption": j["cls"], "ret": "timeout" if k == "timeout" else ("signal" if r.sig else "exit"),
+        ev = {"e": "Run", "tool": j["tool"], "corruption": j["cls"], "section": j["cls"].split(".")[0], "detail_is_st_info": ".st_info." in j["cls"], "ret": "timeout" if k == "timeout" else ("signal" if r.sig else "exit"),
               "kind": k, "fn": fn, "san": r.san, "top": r.top, "assert": _assert_fn(r.err) if k == "assert" else "", "foreign": bool(foreign), "status": r.exit,
               "base": j["base"]["tag"], "detail": j["detail"]}
         return ev
